@@ -223,6 +223,32 @@ def expected(rec, tr):
     return ('ok', pyast.strip_ids(body))
 
 
+def _is_if_exp_call(x):
+    return (isinstance(x, list) and len(x) == 5 and x[0] == 'Call' and isinstance(x[2], list) and len(x[2]) == 5
+            and x[2][0] == 'Attribute' and x[2][3] == 'if_exp' and isinstance(x[2][2], list) and x[2][2][:1] == ['Name']
+            and x[2][2][2] == 'ag__' and isinstance(x[3], list) and len(x[3]) == 4)
+
+
+def mask_if_exp_repr(x, check=None):
+    """Replace the `expr_repr` argument of every `ag__.if_exp(test, λ, λ, expr_repr)` by a placeholder.  With `check` (a
+    list), also verify on this (real) tree that the argument is repr(unparse(test).strip()) of the call's own first
+    argument — what the code computes since 33af8cf (unparse AFTER visiting the test) — appending any deviation."""
+    if isinstance(x, list):
+        if _is_if_exp_call(x):
+            args = x[3]
+            if check is not None:
+                try:
+                    want = repr(ast.unparse(pyast.to_expr(args[0])).strip())
+                    got = args[3][3] if args[3][:1] == ['Constant'] else None
+                    if want != got:
+                        check.append('expr_repr %s, unparse of the test argument %s' % (got, want))
+                except Exception as e:  # noqa
+                    check.append('expr_repr not checkable: %r' % (e,))
+            x = [x[0], x[1], x[2], [args[0], args[1], args[2], ['Constant', '0', 'str', "'<expr_repr>'"]], x[4]]
+        return [mask_if_exp_repr(e, check) for e in x]
+    return x
+
+
 def compare(rec, tr, answer):
     """-> (ok, detail). Structural comparison with node ids stripped; pass-specific extras compared too."""
     op = MODELLED[rec.name]
@@ -244,6 +270,12 @@ def compare(rec, tr, answer):
         return False, 'code fails (%s), model succeeds' % exp[1]
     got = pyast.strip_ids(ans[1])
     want = _strs(exp[1])
+    if op == 'ifexp':
+        bad = []
+        want = mask_if_exp_repr(want, bad)
+        got = mask_if_exp_repr(got)
+        if bad:
+            return False, bad[0]
     if got != want:
         return False, first_diff(want, got)
     # extras
